@@ -148,3 +148,11 @@ Definition index_write_borrowed (wide : bool) (ix : index) : outcome (list Z) :=
   let hdr := write_prim (if wide then PU32 else PU16) count in
   if ix_count ix =? 0 then Ok hdr
   else Ok (hdr ++ [ix_off_size ix] ++ ix_offsets ix ++ ix_data ix).
+
+(* ---------- DICT operands (enum Operand): Integer(i32), Offset(i32), Real(nibble bytes).
+   The DICT model proper is Model/CffDict.v; the type lives here because the generated default
+   tables (Gen/CffDictTables.v) are lists of operands. *)
+Inductive operand :=
+| OInt (v : Z)
+| OOff (v : Z)
+| OReal (bs : list Z).
